@@ -79,14 +79,18 @@ int splinetable_read_key(const struct splinetable* table, splinetable_dtype type
 		return(1);
 	try{
 		const auto& real_table=*static_cast<const photospline::splinetable<>*>(table->data);
+		bool found=false;
 		switch(type){
 			case SPLINETABLE_INT:
-				real_table.read_key(key,*static_cast<int*>(result));
+				found=real_table.read_key(key,*static_cast<int*>(result));
 				break;
 			case SPLINETABLE_DOUBLE:
-				real_table.read_key(key,*static_cast<double*>(result));
+				found=real_table.read_key(key,*static_cast<double*>(result));
 				break;
 		}
+		//a key which is absent or does not hold a value of this type is a failure
+		if(!found)
+			return(1);
 	}catch(std::exception& ex){
 		fprintf(stderr,"%s\n",ex.what());
 		return(1);
